@@ -158,6 +158,22 @@ def main(run):
     for msg in sorted(set(pathmut.POP_LOOP_ISSUES)):
         run.violation('pop-loop|start', f'PathMutImpl::pop: {msg} — the segment it removes need not be the last one')
     run.floor('shape_paths', 60, 'handle paths whose splice shape was classified')
+    # the directory meaning of "." and "..": the dispatch of symbolic_push (Engine S over all segment strings) and the loop of symbolic_append
+    from .. import symstep
+    probs, sst = symstep.analyse_push(P)
+    run.cov['symbolic_push_states'] = sst.get('configs', 0)
+    run.cov['symbolic_push_returns'] = sst.get('returns', 0)
+    sb = P.bodies.get(symstep.FN)
+    for pr in probs:
+        run.violation(f'symbolic|push|{pr[:90]}', f'{P.where(sb) if sb else "path_mut.rs"} PathMutImpl::symbolic_push: {pr}')
+    run.floor('symbolic_push_returns', 4, 'returns of symbolic_push whose dispatch was compared with the directory meaning')
+    probs, ast = symstep.analyse_append(P)
+    run.cov['symbolic_append_iteration_paths'] = ast.get('iteration_paths', 0)
+    run.cov['symbolic_append_tail_paths'] = ast.get('tail_paths', 0)
+    ab = P.bodies.get(symstep.APPEND)
+    for pr in probs:
+        run.violation(f'symbolic|append|{pr[:90]}', f'{P.where(ab) if ab else "path_mut.rs"} PathMutImpl::symbolic_append: {pr}')
+    run.floor('symbolic_append_tail_paths', 2, 'paths from the end of the loop of symbolic_append to its return')
     # frame: after every handle operation the decomposition of the enclosing buffer is "path = the edited window, every other
     # component unchanged"; an absolute path stays absolute, a relative one relative (Engine D3)
     from .. import pathclosure
@@ -178,4 +194,4 @@ def main(run):
                        f'composites without own splices; {npairs} twin pairs',
         'exhaustive': True,
     }, assumptions=['utils::replace / allocate_range implement the splice they are summarised by', 'the content built by normalize() is only measured (its length), not interpreted',
-                    'list semantics of push/pop are NOT decided', 'traces_validated_against_impl is 0: static analysis only'])
+                    'list semantics of push/pop: decided at the level of the text (shape table), not of decoded segment sequences', 'traces_validated_against_impl is 0: static analysis only'])
